@@ -50,8 +50,11 @@ def run_case(case, ctx):
         A = big[::2, ::2]
     ctx.cls(('layout:C', 'layout:F', 'layout:strided_view')[lay])
     A0 = A.copy()
+    strides0 = A.strides
     Q, R, qi = qr(A, q0, q1)
     ctx.calls += 1
+    # the factorisation is of the matrix the caller still holds after the call
+    ctx.check(np.array_equal(A, A0) and A.dtype == A0.dtype and A.strides == strides0, 'argument_unchanged_by_call')
     ctx.obs(Q, R, np.asarray(qi))
     shared = sorted(set(q0.tolist()) & set(q1.tolist()))
     ctx.cls(f'q0:{palette.sortedness(q0)},q1:{palette.sortedness(q1)}' if shared else 'disjoint')
